@@ -38,7 +38,7 @@ var (
 	goStarted     int
 
 	// map-order policy
-	orderMode  string // sorted | reversed | rot | dev | native
+	orderMode  string // fast | sorted | reversed | rot | dev | native
 	orderRot   int
 	orderDev   map[int]bool
 	RangeExecs int
@@ -91,7 +91,9 @@ func BeginCase(order string, budget int64) {
 func setOrder(order string) {
 	orderMode, orderRot, orderDev = "sorted", 0, nil
 	switch {
-	case order == "" || order == "sorted":
+	case order == "" || order == "fast":
+		orderMode = "fast"
+	case order == "sorted":
 	case order == "reversed":
 		orderMode = "reversed"
 	case order == "native":
@@ -271,7 +273,12 @@ func attribute(prefix []string) string {
 // visited (both allowed by the Go specification).
 func Iter[K comparable, V any](site int, m map[K]V) iter.Seq2[K, V] {
 	return func(yield func(K, V) bool) {
-		if orderMode == "native" {
+		// "fast" (the default of every comparing check): maps with more than 256 keys are iterated in
+		// native order; their order-independence is what C05 establishes under the full policies.
+		if orderMode == "native" || (orderMode == "fast" && len(m) > 256) {
+			if orderMode == "fast" {
+				RangeExecs++
+			}
 			for k, v := range m {
 				if !yield(k, v) {
 					return
